@@ -95,6 +95,12 @@ func (b *builder) directTask() TaskSpec {
 		t.A = b.uriText()
 	case "AdjustOffs":
 		t.A = []byte(b.g.URI(false))
+		if b.r.Chance(1, 3) {
+			// empty trailing components: the URI ends in a delimiter
+			t.A = append(t.A, b.r.Pick([]string{";", "?", ":", ";x=", "?h=", ":5060;", ";lr?"})...)
+		} else if b.r.Chance(1, 4) {
+			t.A = b.uriText()
+		}
 		t.N1 = b.r.Intn(300)
 		t.N2 = len(t.A) + b.r.Range(-len(t.A), 6)
 		if b.r.Chance(1, 20) {
